@@ -12,6 +12,7 @@ import numpy as np
 from ..channels import draw_read_channel, read_via, write_via
 from ..core import Prop, Result
 from ..simfs import SimFS, Policy
+from ..swarm import neutral_read_kw, neutral_write_kw, fix_kw
 
 MNEMS = ["COMP", "WELL", "FLD", "LOC", "Comp", "wellName", "X1", "RUN_2", "A-B", "EKB", "DF", "BHT", "a", "LONGMNEMONIC_NAME_XYZ", "R#"]
 UNITS = ["", "", "M", "FT", "US/F", "K/M3", "%", "1/S", "DEG.C", "OHM.M", "0.1IN", "m", "MM/HR", "m:s", "G/C3", "LB/F"]
@@ -126,7 +127,8 @@ class C03(Prop):
             cfg["explicit"] = True
         return {"secs": secs, "other": other, "version": g.choice([1.2, 2.0]), "case": g.choice(["preserve", "upper", "lower"]),
                 "rows": g.randint(1, 3), "out": g.choice(["path", "stream", "stringio"]), "codec": codec, "channel": cfg,
-                "policy": Policy.draw(st.io).to_json(), "engine": g.choice(["numpy", "normal"]), "null": g.choice([None, -999.25]), "special": special}
+                "policy": Policy.draw(st.io).to_json(), "engine": g.choice(["numpy", "normal"]), "null": g.choice([None, -999.25]), "special": special,
+                "nkw": neutral_read_kw(g), "nwkw": neutral_write_kw(g)}
 
     # -----------------------------------------------------------------------------------------------------
     def run(self, sc):
@@ -173,12 +175,12 @@ class C03(Prop):
             return res
         with fs:
             try:
-                text = write_via(fs, las, sc["out"], {"version": sc["version"]}, tag="c03", codec=codec)
+                text = write_via(fs, las, sc["out"], fix_kw(dict(sc.get("nwkw") or {}, version=sc["version"])), tag="c03", codec=codec)
             except Exception as e:
                 res.violate("C03.write-raised", "write(version=%r) raised %s: %s" % (sc["version"], type(e).__name__, str(e)[:200]))
                 return res
             try:
-                back = read_via(fs, text, sc["channel"], {"mnemonic_case": sc["case"], "engine": sc["engine"]}, tag="c03")
+                back = read_via(fs, text, sc["channel"], fix_kw(dict(sc.get("nkw") or {}, mnemonic_case=sc["case"], engine=sc["engine"])), tag="c03")
             except Exception as e:
                 res.violate("C03.unreadable", "lasio cannot read its own header back (version=%r case=%s): %s: %s" % (
                     sc["version"], sc["case"], type(e).__name__, str(e).strip().splitlines()[-1][:300] if str(e).strip() else ""))
